@@ -265,9 +265,38 @@ RAW_NAMES = {"getattr", "setattr", "delattr", "hasattr", "vars"}
 RAW_ATTRS = {"__dict__", "__getattribute__", "__setattr__", "__delattr__", "_check_attr", "__getattr__"}
 
 
-def _routes(fn):
+CMP_NAMES = ("__cmp__", "__eq__", "__ne__", "__lt__", "__le__", "__gt__", "__ge__")
+
+
+def _cmp_only_accessors(fn):
+    """nested `def f(cls, name): if name not in (<comparison names>): raise AttributeError(...); return getattr(cls, name)`
+    -> {f: (names, the getattr Name node)}"""
+    out = {}
+    for st in strip_doc(fn.body):
+        if isinstance(st, ast.FunctionDef):
+            b = strip_doc(st.body)
+            a = [x.arg for x in st.args.args]
+            if len(a) == 2 and not st.args.defaults and not st.decorator_list and len(b) == 2 and isinstance(b[0], ast.If) \
+                    and not b[0].orelse and len(b[0].body) == 1 and isinstance(b[0].body[0], ast.Raise) \
+                    and isinstance(b[0].test, ast.Compare) and len(b[0].test.ops) == 1 and isinstance(b[0].test.ops[0], ast.NotIn) \
+                    and _u(b[0].test.left) == a[1] and isinstance(b[0].test.comparators[0], (ast.Tuple, ast.List, ast.Set)) \
+                    and all(isinstance(e, ast.Constant) and isinstance(e.value, str) for e in b[0].test.comparators[0].elts) \
+                    and _u(b[1]) == "return getattr(%s, %s)" % (a[0], a[1]):
+                ex = b[0].body[0].exc
+                ex = ex.func if isinstance(ex, ast.Call) else ex
+                if isinstance(ex, ast.Name) and ex.id == "AttributeError":
+                    out[st.name] = ([e.value for e in b[0].test.comparators[0].elts], b[1].value.func)
+                    continue
+            raise Unrecognised("nested function %s in %s" % (st.name, fn.name))
+    return out
+
+
+def _routes(fn, facts=None):
     """attribute routes of one _handle_* method, in source order"""
     found, skip = [], set()
+    accs = _cmp_only_accessors(fn)
+    for nm, (names, gnode) in accs.items():
+        skip.add(id(gnode))
     for node in ast.walk(fn):
         if isinstance(node, ast.Call) and isinstance(node.func, ast.Attribute) and isinstance(node.func.value, ast.Name) \
                 and node.func.value.id == "self":
@@ -279,7 +308,15 @@ def _routes(fn):
                 o, p, d = node.args[3], node.args[4], node.args[5]
                 if isinstance(o, ast.Constant) and isinstance(o.value, str) and isinstance(p, ast.Constant) \
                         and isinstance(p.value, str) and isinstance(d, ast.Name):
-                    found.append((node.lineno, node.col_offset, "RAccess %s %s %s" % (coq_string(o.value), coq_string(p.value), coq_string(d.id))))
+                    dname = d.id
+                    if d.id in accs:                 # a local accessor that is getattr restricted to a fixed set of names
+                        dname = "getattr"
+                        if facts is not None:
+                            facts.setdefault("restricted", []).append((fn.name, accs[d.id][0]))
+                    elif facts is not None:
+                        facts.setdefault("unrestricted", []).append(fn.name)
+                    found.append((node.lineno, node.col_offset, "RAccess %s %s %s %s" % (
+                        coq_string(_u(node.args[0])), coq_string(o.value), coq_string(p.value), coq_string(dname))))
                     skip.add(id(d))
                 else:
                     found.append((node.lineno, node.col_offset, 'RRaw "_access_attr with computed policy"'))
@@ -296,14 +333,42 @@ def _routes(fn):
     return [r for _, _, r in sorted(found)]
 
 
-def _handlers(cls):
+def _handlers(cls, facts=None):
     out = []
     for n in cls.body:
         if isinstance(n, ast.FunctionDef) and n.name.startswith("_handle_"):
-            out.append((n.name[len("_handle_"):], _routes(n)))
+            out.append((n.name[len("_handle_"):], _routes(n, facts)))
     if not out:
         raise Unrecognised("no request handlers")
     return out
+
+
+def _cmp_route(cls, facts):
+    """_handle_cmp, whole body: [optional comparison-only accessor;] try: return self._access_attr(type(obj), op, (),
+    "_rpyc_getattr", "allow_getattr", <getattr | accessor>)(obj, other) except Exception: raise"""
+    fn = find_func(cls, "_handle_cmp")
+    if [x.arg for x in fn.args.args] != ["self", "obj", "other", "op"] or [_u(d) for d in fn.args.defaults] != ["'__cmp__'"]:
+        raise Unrecognised("_handle_cmp signature")
+    body = [st for st in strip_doc(fn.body) if not isinstance(st, ast.FunctionDef)]
+    acc = [st.name for st in strip_doc(fn.body) if isinstance(st, ast.FunctionDef)]
+    if len(body) != 1 or len(acc) > 1:
+        raise Unrecognised("_handle_cmp body")
+    st = body[0]
+    if isinstance(st, ast.Try):
+        if not (len(st.body) == 1 and len(st.handlers) == 1 and not st.orelse and not st.finalbody
+                and _u(st.handlers[0]) == "except Exception:\n    raise"):
+            raise Unrecognised("_handle_cmp try")
+        st = st.body[0]
+    d = acc[0] if acc else "getattr"
+    if _u(st) != "return self._access_attr(type(obj), op, (), '_rpyc_getattr', 'allow_getattr', %s)(obj, other)" % d:
+        raise Unrecognised("_handle_cmp call: %s" % _u(st))
+    restricted = [names for h, names in facts.get("restricted", []) if h == "_handle_cmp"]
+    if any(h != "_handle_cmp" for h, _ in facts.get("restricted", [])):
+        raise Unrecognised("restricted accessor outside _handle_cmp")
+    if restricted and sorted(restricted[0]) != sorted(CMP_NAMES):
+        raise Unrecognised("_handle_cmp serves other names than the comparison protocol: %r" % (restricted[0],))
+    return [typed("cmp_ops_restricted", "bool", coq_bool(bool(restricted))),
+            typed("cmp_ops", "list string", coq_list(coq_string(x) for x in (restricted[0] if restricted else [])))]
 
 
 def _dispatch(cls):
@@ -666,12 +731,15 @@ def translate(repo):
                 typed("access_attr", "nkind -> bool -> switches -> permkey -> bool -> nview -> oview -> result reach", term)]
     guarded("access_attr", access)
 
+    rfacts = {}
+
     def handlers():
-        hs = _handlers(cls)
+        hs = _handlers(cls, rfacts)
         return [typed("handlers", "htable", coq_list("(%s, %s)" % (coq_string(h), coq_list(rs)) for h, rs in hs)),
                 typed("dispatch", "list (string * string)",
                       coq_list("(%s, %s)" % (coq_string(a), coq_string(b)) for a, b in _dispatch(cls)))]
     guarded("handlers", handlers)
+    guarded("cmp_route", lambda: _cmp_route(cls, rfacts))
     guarded("default_config", lambda: _default_config(tree))
     guarded("init", lambda: _init(cls))
     guarded("on_connect", lambda: _on_connect(stree))
@@ -693,7 +761,11 @@ def translate(repo):
                           ("Connection._handle_buffiter", cls, "_handle_buffiter"), ("Connection._handle_repr", cls, "_handle_repr"),
                           ("Connection._handle_str", cls, "_handle_str"), ("Connection._handle_hash", cls, "_handle_hash"),
                           ("Connection._handle_del", cls, "_handle_del"), ("Connection._handle_getroot", cls, "_handle_getroot"),
-                          ("lib.get_methods", ltree, "get_methods")):
+                          ("lib.get_methods", ltree, "get_methods"),
+                          # the by-name handlers, whole bodies (cmp is translated whole above): a cache, a shortcut ... shows here
+                          ("Connection._handle_getattr", cls, "_handle_getattr"), ("Connection._handle_setattr", cls, "_handle_setattr"),
+                          ("Connection._handle_delattr", cls, "_handle_delattr"), ("Connection._handle_callattr", cls, "_handle_callattr"),
+                          ("Connection._handle_ctxexit", cls, "_handle_ctxexit"), ("Connection._handle_oldslicing", cls, "_handle_oldslicing")):
         try:
             items.append(shape(nm, func_shape(find_func(scope, fn))))
         except Unrecognised as e:
